@@ -8,6 +8,12 @@ reg("C02", "kriging exact / unbiased / linear / invariant (metamorphic)",
          "the reference solver; targets whose reference condition number exceeds 1e9 or whose neighbourhood changes under "
          "the transformation are skipped; distinct = distinct discrete configurations with a non-skipped evaluation",
     level="exploration",
-    require=dict(distinct=100),
+    require=dict(distinct=300,
+                 oracles=dict(quick={"exact-estim": 5000, "linear-estim": 4000, "permute-estim": 4000, "shift-estim": 2500,
+                                     "translate-estim": 3000, "unbiased": 15000, "stdev-finite": 4000, "stdev-le-prior": 1100,
+                                     "xvalid-estim": 300},
+                              thorough={"exact-estim": 30000, "linear-estim": 24000, "permute-estim": 24000, "shift-estim": 15000,
+                                        "translate-estim": 18000, "unbiased": 90000, "stdev-finite": 24000,
+                                        "stdev-le-prior": 6600, "xvalid-estim": 1800})),
     assumptions=["the reference solver (ref_krige.hpp) is used only to size tolerances (condition number, magnitude of sums)",
                  "moving neighbourhoods: continuous random locations, so no distance ties; a changed neighbour set voids the target"])
